@@ -673,6 +673,13 @@ theorem no_strategy_after_unload_overlay (s : Svc) (o : Nat) (ops : List SOp) (h
     (∀ e ∈ ((s.unloadOverlay o).run ops).stepped, e.2 ≠ o) ∧ o ∉ ((s.unloadOverlay o).run ops).overlays :=
   svcClean_run ops _ hops (svcClean_unload s o)
 
+/-- **service_model_matches_source** — the way the service forgets an overlay, re-read from the source on every run: both
+    lists of `IPv8.unload_overlay` are rebuilt without the instance, strategies are selected BY THE OVERLAY THEY DRIVE (this is
+    `Svc.unloadOverlay`), the instance is unloaded afterwards, and the inline copy of that code in
+    `HiddenTunnelCommunity.remove_exit_socket` (a PEX overlay that has finished) selects the same way. -/
+theorem service_model_matches_source :
+    Gen.serviceFacts.length = 4 ∧ ∀ f ∈ Gen.serviceFacts, f.2 = true := by decide
+
 /-- non-vacuity: three consecutive strategies of overlay 1 between strategies of overlay 2 (the shape of the default
     configuration) — all three are gone, the others stay -/
 example : (((({ } : Svc).run [.add 2 10, .add 1 11, .add 1 12, .add 1 13, .add 2 14]).unloadOverlay 1).run [.add 3 15]).stepped
